@@ -234,6 +234,7 @@ static const char *const defs[] = { "block.", "block.mpegts.", "block.h264.", "v
  * with the kind of buffer that goes with each */
 enum { K_BLOCK = 0, K_PIC, K_S16, K_S32, K_F32P, K_VOID, K_S24BLOCK, K__N };
 static int cur_kind;                   /* of the flow definition accepted last */
+static uint64_t alloc_which;           /* kind of flow definition a flow-allocated pipe was given */
 static struct ubuf_mgr *kind_mgr[K__N];
 
 
@@ -251,6 +252,13 @@ static int type;
 /* which providers the application stacks on its probes (bit 0: the sinks answer
  * requests). The pipes of the second batch assert on a manager nobody gave them:
  * they only run in complete applications. */
+static void req_final_probe(void);
+/* typed pipes that keep input while they wait for a manager (the hold-input
+ * idiom) instead of asserting: these also run in incomplete applications */
+static bool typed_but_patient(void)
+{
+    return !strcmp(types[type].name, "audio_copy") || !strcmp(types[type].name, "row_join");
+}
 static uint64_t provide(void)
 {
     /* (C12: a control command that ends with the pipe's own check returns the
@@ -258,7 +266,7 @@ static uint64_t provide(void)
      * out; only complete applications, where an error means "not taken") */
     if (plan->cfg[CFG_PROP] == 12)
         return 31;
-    return (types[type].flags & F_TYPED) ? 31 : (uint64_t)plan->cfg[CFG_PROVIDE];
+    return ((types[type].flags & F_TYPED) && !typed_but_patient()) ? 31 : (uint64_t)plan->cfg[CFG_PROVIDE];
 }
 static bool req_overflow, has_no_output;
 static bool sim_violation_suppressed;
@@ -385,6 +393,8 @@ static void src_pump_cb(struct upump *upump) { (void)upump; }
 static bool complete_tainted;          /* something happened that legitimately drops or keeps buffers */
 static bool sink_blocked_ever;
 static uint64_t buffer_max_size, largest_input;
+static unsigned row_seq;
+static int pic_rows = 16;              /* height of the pictures made (row_join is fed rows of 4) */
 static bool pid_enabled[4];            /* model of ts_pid_filter: PIDs 0x100..0x103 */
 
 static void sink_blocker_cb(struct upump_blocker *blocker)
@@ -570,8 +580,11 @@ static int sink_control(struct upipe *upipe, int command, va_list args)
         return UBASE_ERR_NONE;
     case UPIPE_REGISTER_REQUEST: {
         struct urequest *rq = va_arg(args, struct urequest *);
-        if (rq->type == UREQUEST_SINK_LATENCY) {
-            /* the tracer of C12: nobody answers it before the plan says so */
+        uint64_t tracer = 0;
+        if (rq->type == UREQUEST_SINK_LATENCY ||
+            (rq->type == UREQUEST_FLOW_FORMAT && rq->uref != NULL &&
+             ubase_check(uref_attr_get_unsigned(rq->uref, &tracer, UDICT_TYPE_UNSIGNED, "x.tracer")))) {
+            /* the tracers of C12: nobody answers them before the plan says so */
             if (s->nlodged < 8)
                 s->lodged[s->nlodged++] = rq;
             else
@@ -590,7 +603,10 @@ static int sink_control(struct upipe *upipe, int command, va_list args)
     }
     case UPIPE_UNREGISTER_REQUEST: {
         struct urequest *rq = va_arg(args, struct urequest *);
-        if (rq->type == UREQUEST_SINK_LATENCY) {
+        uint64_t tracer = 0;
+        if (rq->type == UREQUEST_SINK_LATENCY ||
+            (rq->type == UREQUEST_FLOW_FORMAT && rq->uref != NULL &&
+             ubase_check(uref_attr_get_unsigned(rq->uref, &tracer, UDICT_TYPE_UNSIGNED, "x.tracer")))) {
             unsigned k = 0;
             while (k < s->nlodged && s->lodged[k] != rq)
                 k++;
@@ -676,6 +692,8 @@ static void env_setup(void)
     complete_tainted = sink_blocked_ever = false;
     largest_input = 0;
     memset(pid_enabled, 0, sizeof(pid_enabled));
+    row_seq = 0;
+    pic_rows = !strcmp(types[type].name, "row_join") ? 4 : 16;
     buffer_max_size = 0;        /* (upipe_buffer's default: nothing fits until the application says how much) */
     ut = NULL;
     ut_ready = ut_dead = ut_events = ut_fatal = ut_error = 0;
@@ -751,7 +769,7 @@ static void env_teardown(void)
  * path: DESIGN.md 2.3): no allocation fault while they run */
 static bool faults_allowed(void)
 {
-    static const char *const no_error_path[] = { "m3u_reader", "row_split", "ts_align", NULL };
+    static const char *const no_error_path[] = { "m3u_reader", "row_split", "row_join", "ts_align", NULL };
     for (int i = 0; no_error_path[i] != NULL; i++)
         if (!strcmp(types[type].name, no_error_path[i]))
             return false;
@@ -792,19 +810,26 @@ static bool flow_def_accepted;
  * output, move with set_output, go away on unregister and at the latest when
  * the pipe dies; an answer given at the output reaches the requester. */
 #define NAREQ 3
+#define NAREQ_ALL (NAREQ + 1)          /* the last one is the harness's own probe request */
 static struct areq {
     struct urequest ureq;
-    bool inited, registered, travelling;
+    bool inited, registered, travelling, is_flow_format;
     unsigned answers;
     uint64_t last;
-} areqs[NAREQ];
-static uint64_t provided_last;
-static bool provided_any;
+} areqs[NAREQ_ALL];
 
 static int areq_provide(struct urequest *ur, va_list args)
 {
     struct areq *a = container_of(ur, struct areq, ureq);
-    uint64_t v = va_arg(args, uint64_t);
+    uint64_t v = 0;
+    if (a->is_flow_format) {
+        /* the answer is a flow format, the requester's from now on */
+        struct uref *u = va_arg(args, struct uref *);
+        if (u != NULL)
+            uref_attr_get_unsigned(u, &v, UDICT_TYPE_UNSIGNED, "x.ans");
+        uref_free(u);
+    } else
+        v = va_arg(args, uint64_t);
     sim_ev("req_answer", (uint64_t)(a - areqs), v);
     if (!a->registered && checking())
         sim_violation(V_REQ_AFTER_UNREGISTER, "%s: request %d answered (value %" PRIu64 ") after it was unregistered",
@@ -833,7 +858,7 @@ static void req_invariant(const char *when)
         bool current = ut != NULL && !ut_dead && cur_out == &sinks[k].upipe;
         unsigned lo = current ? lower : 0, hi = current ? upper : 0;
         if (sinks[k].nlodged < lo || sinks[k].nlodged > hi) {
-            sim_violation(V_REQ_ROUTING, "%s, %s: %u sink-latency request(s) lodged at sink %d (%s), between %u and %u expected "
+            sim_violation(V_REQ_ROUTING, "%s, %s: %u traced request(s) lodged at sink %d (%s), between %u and %u expected "
                           "(%u registered on the pipe, %u of them seen travelling)", types[type].name, when, sinks[k].nlodged, k,
                           current ? "the current output" : "not the output", lo, hi, upper, lower);
             return;
@@ -917,7 +942,7 @@ static struct uref *typed_buffer(int kind, unsigned size, uint64_t content)
     if (kind == K_VOID)
         return uref_alloc(uref_mgr);
     if (kind == K_PIC) {
-        uref = uref_pic_alloc(uref_mgr, kind_mgr[K_PIC], 32, 16);
+        uref = uref_pic_alloc(uref_mgr, kind_mgr[K_PIC], 32, pic_rows);
         static const char *const planes[] = { "y8", "u8", "v8" };
         for (int p = 0; uref != NULL && p < 3; p++) {
             uint8_t *w;
@@ -926,7 +951,7 @@ static struct uref *typed_buffer(int kind, unsigned size, uint64_t content)
             if (!ubase_check(uref_pic_plane_size(uref, planes[p], &stride, &hsub, &vsub, NULL)) ||
                 !ubase_check(uref_pic_plane_write(uref, planes[p], 0, 0, -1, -1, &w)))
                 continue;
-            for (int y = 0; y < 16 / vsub; y++)
+            for (int y = 0; y < pic_rows / vsub; y++)
                 for (int x = 0; x < 32 / hsub; x++)
                     w[(size_t)y * stride + (size_t)x] = (uint8_t)(content * 31 + (uint64_t)(x + y * 3 + p));
             uref_pic_plane_unmap(uref, planes[p], 0, 0, -1, -1);
@@ -1046,7 +1071,11 @@ static void do_op(const struct sim_op *op)
         const char *def = defs[(uint64_t)op->a[0] % NDEFS];
         uint64_t x = (uint64_t)op->a[1];
         int kind = K_BLOCK;
-        struct uref *fd = (types[type].flags & F_TYPED) ? typed_def((uint64_t)op->a[0], x, &kind) : uref_alloc(uref_mgr);
+        /* (upipe_audio_copy reframes: the format it was allocated with has to be
+         * the one of its input - it copies with the input's sample size into
+         * buffers of the output's and does not compare them) */
+        uint64_t which_def = !strcmp(types[type].name, "audio_copy") ? alloc_which : (uint64_t)op->a[0];
+        struct uref *fd = (types[type].flags & F_TYPED) ? typed_def(which_def, x, &kind) : uref_alloc(uref_mgr);
         if (fd == NULL)
             break;
         if (!(types[type].flags & F_TYPED))
@@ -1087,7 +1116,7 @@ static void do_op(const struct sim_op *op)
             break;
         /* (second batch: a pipe whose request for a manager failed inside the
          * provider asserts on the first buffer; incomplete application) */
-        if ((types[type].flags & F_TYPED) && provider_failed)
+        if ((types[type].flags & F_TYPED) && provider_failed && !typed_but_patient())
             break;
         unsigned burst = 1 + (unsigned)((uint64_t)op->a[3] % 4);
         for (unsigned k = 0; k < burst && ut != NULL; k++) {
@@ -1108,6 +1137,15 @@ static void do_op(const struct sim_op *op)
                 break;
             if (!blocks)
                 SIM_PROBE("sweep_typed_buffer_input");
+            /* pictures cut into rows (row_split's output, row_join's input) */
+            /* (upipe_row_join dereferences the picture under construction
+             * without a test: a stream that starts in the middle of a picture, or
+             * rows that do not follow each other, crash it. No property is about
+             * that: it gets rows of 4 lines, top row first, in sequence) */
+            if (cur_kind == K_PIC && !strcmp(types[type].name, "row_join"))
+                uref_pic_set_vposition(uref, (row_seq++ % 4) * 4);
+            else if (cur_kind == K_PIC && ((uint64_t)op->a[2] & 8))
+                uref_pic_set_vposition(uref, (((uint64_t)op->a[2] >> 4) & 3) * 4);
             if (size && blocks) {
                 uint8_t *w;
                 int s = -1;
@@ -1238,6 +1276,22 @@ static void do_op(const struct sim_op *op)
         const char *name = types[type].name, *what = NULL;
         if (mode == MODE_TWIN && rejected[cur_op])
             break;
+        if (!strcmp(name, "audio_blank") || !strcmp(name, "video_blank") || !strcmp(name, "blank_source")) {
+            /* the reference sound / picture these pipes repeat (it becomes theirs) */
+            int kind = !strcmp(name, "audio_blank") ? K_S16 : !strcmp(name, "video_blank") ? K_PIC :
+                       ((uint64_t)op->a[1] & 1) ? K_PIC : K_S16;
+            struct uref *ref = kind_mgr[kind] != NULL ? typed_buffer(kind, (unsigned)((uint64_t)op->a[1] * 13 % 200), (uint64_t)op->a[1]) : NULL;
+            if (ref == NULL)
+                break;
+            SIM_PROBE("sweep_reference_buffer_given");
+            if (!strcmp(name, "audio_blank"))
+                upipe_ablk_set_sound(ut, ref);
+            else if (!strcmp(name, "video_blank"))
+                upipe_vblk_set_pic(ut, ref);
+            else
+                upipe_input(ut, ref, NULL);
+            break;
+        }
         if (!strcmp(name, "ts_pid_filter")) {
             unsigned k = (unsigned)((uint64_t)op->a[1] % 4);
             int perr = w == 0 ? upipe_ts_pidf_del_pid(ut, (uint16_t)(0x100 + k)) : upipe_ts_pidf_add_pid(ut, (uint16_t)(0x100 + k));
@@ -1308,7 +1362,18 @@ static void do_op(const struct sim_op *op)
         unsigned lodged_before = 0;
         for (int k = 0; k < NSINK; k++)
             lodged_before += sinks[k].nlodged;
-        urequest_init_sink_latency(&a->ureq, areq_provide, NULL);
+        a->is_flow_format = ((uint64_t)op->a[1] & 1) != 0;
+        if (a->is_flow_format) {
+            /* a flow format the requester would like (marked, so that the sinks
+             * tell it from what the pipe asks on its own account) */
+            struct uref *ff = uref_alloc(uref_mgr);
+            if (ff == NULL)
+                break;
+            uref_flow_set_def(ff, "block.");
+            uref_attr_set_unsigned(ff, 1 + (uint64_t)op->a[0] % NAREQ, UDICT_TYPE_UNSIGNED, "x.tracer");
+            urequest_init_flow_format(&a->ureq, ff, areq_provide, NULL);
+        } else
+            urequest_init_sink_latency(&a->ureq, areq_provide, NULL);
         a->inited = true;
         a->answers = 0;
         a->registered = true;           /* (an answer may come from inside the call) */
@@ -1355,8 +1420,17 @@ static void do_op(const struct sim_op *op)
             bool still = false;
             for (unsigned j = 0; j < sk->nlodged; j++)
                 still = still || sk->lodged[j] == snapshot[k];
-            if (still)
+            if (!still)
+                continue;
+            if (snapshot[k]->type == UREQUEST_SINK_LATENCY)
                 urequest_provide_sink_latency(snapshot[k], v);
+            else {
+                struct uref *ans = snapshot[k]->uref != NULL ? uref_dup(snapshot[k]->uref) : NULL;
+                if (ans != NULL) {
+                    uref_attr_set_unsigned(ans, v, UDICT_TYPE_UNSIGNED, "x.ans");
+                    urequest_provide_flow_format(snapshot[k], ans);
+                }
+            }
         }
         if (n && checking() && !fault_fired && !provider_failed && plan->cfg[CFG_PROP] == 12 && ut != NULL &&
             cur_out == &sk->upipe)
@@ -1387,6 +1461,67 @@ static void do_op(const struct sim_op *op)
     }
     default:
         break;
+    }
+}
+
+/* C12, "every still-registered request is re-issued to the new output", for the
+ * requests that were registered while the pipe had no output (or no inner pipe)
+ * and were therefore never seen travelling: at the end of the history the
+ * harness registers one more request of that type; if that one arrives at the
+ * output, this pipe forwards the type, and every request of the type still
+ * registered has to be lodged there as well. */
+static unsigned lodged_of(struct sink *sk, bool flow_format)
+{
+    unsigned n = 0;
+    for (unsigned k = 0; k < sk->nlodged; k++)
+        if ((sk->lodged[k]->type == UREQUEST_FLOW_FORMAT) == flow_format)
+            n++;
+    return n;
+}
+static void req_final_probe(void)
+{
+    if (plan->cfg[CFG_PROP] != 12 || fault_fired || provider_failed || req_overflow || has_no_output || cur_out == NULL ||
+        ut == NULL || ut_dead)
+        return;
+    struct sink *sk = container_of(cur_out, struct sink, upipe);
+    for (int ff = 0; ff < 2; ff++) {
+        unsigned registered = 0;
+        for (int i = 0; i < NAREQ; i++)
+            if (areqs[i].registered && areqs[i].is_flow_format == (ff != 0))
+                registered++;
+        if (registered == 0 || sk->nlodged + 1 > 8)
+            continue;
+        struct areq *p = &areqs[NAREQ];
+        if (p->inited) {
+            p->ureq.registered = false;
+            urequest_clean(&p->ureq);
+            p->inited = false;
+        }
+        p->is_flow_format = ff != 0;
+        if (ff) {
+            struct uref *f = uref_alloc(uref_mgr);
+            if (f == NULL)
+                continue;
+            uref_flow_set_def(f, "block.");
+            uref_attr_set_unsigned(f, 99, UDICT_TYPE_UNSIGNED, "x.tracer");
+            urequest_init_flow_format(&p->ureq, f, areq_provide, NULL);
+        } else
+            urequest_init_sink_latency(&p->ureq, areq_provide, NULL);
+        p->inited = true;
+        p->registered = true;
+        unsigned before = lodged_of(sk, ff != 0);
+        int err = upipe_register_request(ut, &p->ureq);
+        unsigned after = lodged_of(sk, ff != 0);
+        bool forwards = ubase_check(err) && after == before + 1;
+        if (forwards && checking() && after != registered + 1)
+            sim_violation(V_REQ_ROUTING, "%s forwards %s requests to its output (a fresh one arrived there), and of the %u "
+                          "registered on it earlier only %u are lodged there: a request registered before the output "
+                          "was connected was not re-issued", types[type].name, ff ? "flow format" : "sink latency",
+                          registered, before);
+        else if (forwards)
+            SIM_PROBE("sweep_request_final_probe_forwarded");
+        upipe_unregister_request(ut, &p->ureq);
+        p->registered = false;
     }
 }
 
@@ -1437,7 +1572,7 @@ static bool run_once(void)
     cur_out = NULL;
     held_while_waiting = false;
     flow_defs_behind_held = 0;
-    for (int i = 0; i < NAREQ; i++) {
+    for (int i = 0; i < NAREQ_ALL; i++) {
         if (areqs[i].inited) {
             /* (left registered by a run that was abandoned, or whose pipe
              * died under the application's feet: nothing of it survives) */
@@ -1468,7 +1603,8 @@ static bool run_once(void)
             for (int i = 0; hints[i].name != NULL; i++)
                 if (!strcmp(hints[i].name, types[type].name))
                     which = (which & ~(uint64_t)7) | (uint64_t)hints[i].which;
-        struct uref *fd = typed_def(which & 7, which >> 3, &kind);
+        alloc_which = which & 7;
+        struct uref *fd = typed_def(which & 7, (which >> 3) | ((which & 64) ? 16 : 0), &kind);
         ut = fd != NULL ? upipe_flow_alloc(mgr, uprobe_use(chain), fd) : NULL;
         uref_free(fd);
     } else
@@ -1492,8 +1628,10 @@ static bool run_once(void)
             do_op(&plan->ops[i]);
             req_invariant(op_name(plan->ops[i].code));
         }
+        if (ut != NULL && checking())
+            req_final_probe();
         if (ut != NULL)
-            for (int i = 0; i < NAREQ; i++)
+            for (int i = 0; i < NAREQ_ALL; i++)
                 if (areqs[i].registered) {
                     upipe_unregister_request(ut, &areqs[i].ureq);
                     areqs[i].registered = false;
@@ -1523,10 +1661,16 @@ static bool run_once(void)
             sim_violation(V_DEAD, "%s threw dead %u times after its last reference was released and the loop ran dry",
                           types[type].name, ut_dead);
     }
+    for (int i = 0; i < NAREQ_ALL; i++)
+        if (areqs[i].inited) {
+            areqs[i].ureq.registered = false;
+            urequest_clean(&areqs[i].ureq);     /* (frees the flow format it carries) */
+            areqs[i].inited = false;
+        }
     if (checking() && ut_dead == 1 && !req_overflow)
         for (int k = 0; k < NSINK; k++)
             if (sinks[k].nlodged != 0) {
-                sim_violation(V_REQ_ROUTING, "%s is dead and %u sink-latency request(s) are still lodged at sink %d",
+                sim_violation(V_REQ_ROUTING, "%s is dead and %u traced request(s) are still lodged at sink %d",
                               types[type].name, sinks[k].nlodged, k);
                 break;
             }
@@ -1612,7 +1756,7 @@ static void gen(const char *pr, struct sim_rng *r, struct sim_plan *p)
     p->cfg[CFG_POOL] = sim_rng_below(r, 5);
     p->cfg[CFG_FAULTS] = sim_rng_chance(r, 1, 3);
     p->cfg[CFG_PROVIDE] = sim_rng_chance(r, 9, 10) ? 31 : sim_rng_below(r, 32);
-    p->cfg[CFG_ALLOCDEF] = sim_rng_below(r, 64);
+    p->cfg[CFG_ALLOCDEF] = sim_rng_below(r, 128);
     int n = 3 + (int)sim_rng_below(r, 24);
     /* most histories negotiate something the pipe may accept first */
     int first = (int)sim_rng_below(r, NDEFS);
@@ -1621,6 +1765,13 @@ static void gen(const char *pr, struct sim_rng *r, struct sim_plan *p)
             sim_plan_add(p, 0, OP_FLOW_DEF, (first + k * 3) % NDEFS, sim_rng_below(r, 64), 0, 0, 0, 0);
     if (sim_rng_chance(r, 1, 2))
         sim_plan_add(p, 0, OP_ATTACH, 3, 0, 0, 0, 0, 0);
+    /* C12: requests registered while there is no output yet, then the output */
+    if (p->cfg[CFG_PROP] == 12 && sim_rng_chance(r, 1, 3)) {
+        sim_plan_add(p, 0, OP_SET_OUTPUT, 0, 0, 0, 0, 0, 0);
+        for (uint32_t k = 0, nreq = 1 + sim_rng_below(r, 2); k < nreq; k++)
+            sim_plan_add(p, 0, OP_REQ_REGISTER, sim_rng_below(r, NAREQ), sim_rng_below(r, 2), 0, 0, 0, 0);
+        sim_plan_add(p, 0, OP_SET_OUTPUT, 1 + sim_rng_below(r, 2), 0, 0, 0, 0, 0);
+    }
     /* pipes that only do something once configured */
     for (int k = 0; k < 3; k++)
         if (sim_rng_chance(r, 1, 2))
@@ -1649,7 +1800,7 @@ static void gen(const char *pr, struct sim_rng *r, struct sim_plan *p)
             continue;
         }
         if (p->cfg[CFG_PROP] == 12 && c >= 20 && c < 40) {
-            if (c < 29) sim_plan_add(p, 0, OP_REQ_REGISTER, sim_rng_below(r, NAREQ), 0, 0, 0, 0, f);
+            if (c < 29) sim_plan_add(p, 0, OP_REQ_REGISTER, sim_rng_below(r, NAREQ), sim_rng_below(r, 2), 0, 0, 0, f);
             else if (c < 34) sim_plan_add(p, 0, OP_REQ_UNREGISTER, sim_rng_below(r, NAREQ), 0, 0, 0, 0, 0);
             else sim_plan_add(p, 0, OP_REQ_PROVIDE, sim_rng_below(r, NSINK), sim_rng_below(r, 100000), 0, 0, 0, 0);
         } else if (p->cfg[CFG_PROP] == 20 && c >= 30 && c < 40) sim_plan_add(p, 0, c < 35 ? OP_GETTER : OP_OPTION, sim_rng_below(r, 3), sim_rng_below(r, 8), 0, 0, 0, 0);
